@@ -22,6 +22,7 @@ pub mod c17_merge;
 pub mod c18_paths;
 pub mod c19_blob;
 pub mod c20_frames;
+pub mod c20_garbage;
 pub mod c20_ids;
 
 pub type RunFn = fn(Tier, u64) -> Report;
@@ -50,6 +51,7 @@ pub fn all() -> Vec<(&'static str, RunFn, ReplayFn)> {
         ("c18_paths", c18_paths::run, c18_paths::replay),
         ("c19_blob", c19_blob::run, c19_blob::replay),
         ("c20_frames", c20_frames::run, c20_frames::replay),
+        ("c20_garbage", c20_garbage::run, c20_garbage::replay),
         ("c20_ids", c20_ids::run, c20_ids::replay),
     ]
 }
